@@ -19,7 +19,7 @@
    sibling tree hash recomputed from scratch), independent of parent_hash.rs, and additionally
    by the library's own joiner / observer validation of every exported tree.  Statements only. *)
 From Coq Require Import NArith List.
-From MlsV Require Import Res TreeMathGen TreeMathProofs Tree TreeProofs TreeWF Decap DecapProofs TreeWF5 NodeVecGen NodeVecGenProofs.
+From MlsV Require Import Res TreeMathGen TreeMathProofs Tree TreeProofs TreeWF Decap DecapProofs TreeWF5 NodeVecGen NodeVecGenProofs Kem Priv ParentHash.
 Import ListNotations.
 Local Open Scope N_scope.
 
@@ -63,6 +63,42 @@ Theorem C08_translated_node_vector_operations_are_the_model : forall t start ind
   gen_batch_phases = batch_phases.
 Proof. exact translated_node_vector. Qed.
 
+(* ---- parent hashes (RFC 9420 7.9) as an invariant of the tree operations ----
+   A decorated tree = the tree model plus (public key, parent hash) for every non-blank node; PHF is ANY
+   function (the parent hash of: the parent's key, the parent's parent hash, the content of the sibling
+   subtree with the parent's unmerged leaves taken out).  PHValid: every non-blank parent P has, below one of
+   its children and reachable through blank nodes only, a node D whose stored parent hash is PHF of P's key,
+   P's parent hash and the content of P's OTHER child without P's unmerged leaves - the hash-chain equation
+   of RFC 9420 7.9.2.  It holds in a new group and is preserved by the proposals of a commit (removes,
+   updates, adds with their unmerged-leaf bookkeeping, trim) and by the update path, PROVIDED the committer
+   computes the parent hashes on its path by the top-down recurrence of 7.9 (hypothesis Dpath of the path
+   theorem: that recurrence is what parent_hash.rs implements; it is compared with the library on every
+   exported tree by the from-scratch verification in Model/TreeHashRFC.v).  PARTIAL: the second condition of
+   7.9.2 (the rest of the child's resolution consists of P's unmerged leaves) is not part of PHValid. *)
+Theorem C08_parent_hashes_valid_in_a_new_group : forall PHF id d, PHValid PHF [Some (Leaf id)] d.
+Proof. exact ph_initial. Qed.
+
+Theorem C08_parent_hashes_stay_valid_through_the_proposals : forall PHF t removes updates adds t' added d d',
+  wf3 t -> tlen t + 2 * N.of_nat (length adds) < 2 ^ 25 ->
+  batch_edit t removes updates adds = TOk (t', added) ->
+  (forall n, (forall l, In l (map fst updates) -> n <> 2 * l) -> get t n <> None -> d' n = d n) ->
+  PHValid PHF t d -> PHValid PHF t' d'.
+Proof. exact ph_batch_edit. Qed.
+
+Theorem C08_parent_hashes_stay_valid_through_a_commit : forall PHF t removes updates adds t1 added sndr id t2 flt d dm d2,
+  wf3 t -> wf5 t -> shape_ok t -> tlen t + 2 * N.of_nat (length adds) < 2 ^ 25 ->
+  batch_edit t removes updates adds = TOk (t1, added) ->
+  apply_update_path t1 sndr id = TOk t2 ->
+  filtered (set t1 (2 * sndr) (Some (Leaf id))) sndr = Ok flt ->
+  (forall n, (forall l, In l (map fst updates) -> n <> 2 * l) -> get t n <> None -> dm n = d n) ->
+  (forall n, n <> 2 * sndr -> ~ ancestor n sndr -> get t1 n <> None -> d2 n = dm n) ->
+  (forall i, nth_error flt i = Some false ->
+     snd (d2 (dnode sndr (next_below flt i))) =
+     PHF (fst (d2 (lvl_node (N.of_nat (S i)) sndr))) (snd (d2 (lvl_node (N.of_nat (S i)) sndr)))
+         (content t2 d2 [] i (sib (sndr / 2 ^ N.of_nat i)))) ->
+  PHValid PHF t d -> PHValid PHF t2 d2.
+Proof. exact ph_commit. Qed.
+
 Print Assumptions C08_every_parent_has_members_on_both_sides.
 
 Theorem C08_initial_tree_wf5 : forall id, wf5 [Some (Leaf id)].
@@ -91,3 +127,6 @@ Print Assumptions C08_path_update_keeps_shape.
 Print Assumptions C08_new_leaf_leftmost_blank.
 Print Assumptions C08_add_uses_next_empty_leaf.
 Print Assumptions C08_translated_node_vector_operations_are_the_model.
+Print Assumptions C08_parent_hashes_valid_in_a_new_group.
+Print Assumptions C08_parent_hashes_stay_valid_through_the_proposals.
+Print Assumptions C08_parent_hashes_stay_valid_through_a_commit.
